@@ -1,6 +1,6 @@
 (* Property C10 — wait() is a barrier and always returns.
    Only statements here; proofs are in CacheInv.v and CacheFifo.v. *)
-From StrettoModel Require Import Base Metrics Sketch Bloom TinyLFU Policy Ttl Store Cache CacheProofs CacheInv CacheFifo.
+From StrettoModel Require Import Base Metrics Sketch Bloom TinyLFU Policy Ttl Store Cache CacheProofs CacheInv CacheFifo CacheClearLive CacheBarrier.
 Open Scope N_scope.
 
 (* In every reachable state — every history, every interleaving of clients, processor and policy
@@ -50,3 +50,74 @@ Theorem C10_marker_released_only_by :
   cstep c st l = StepOk st' o -> mem_N id (s_done st) = false -> mem_N id (s_done st') = true -> release_cause st l id.
 Proof. exact marker_released_only_by. Qed.
 Print Assumptions C10_marker_released_only_by.
+
+(* ---- the barrier end to end (proofs in CacheBarrier.v) ---- *)
+
+(* Identifiers of wait markers and clear signals are fresh: in every reachable state every
+   identifier in use (a marker in the buffer, a pending clear signal, the clear being performed, a
+   released marker or acknowledged clear) is below the allocation counter. *)
+Theorem C10_identifiers_are_fresh :
+  forall c mc t now st, reach c (cinit c mc t now) st -> IdBound st.
+Proof. exact reachable_IdBound. Qed.
+Print Assumptions C10_identifiers_are_fresh.
+
+(* The buffer shrinks only when the processor, at its loop head, takes the head item or drains the
+   buffer for clear() / stop: this is what the slot count of the next theorem counts. *)
+Theorem C10_slots_are_consumed_only_by_the_processor :
+  forall c st l st' o,
+  cstep c st l = StepOk st' o -> (0 < consumed st st')%nat ->
+  exists h, l = LProc h /\ s_pc st = PIdle /\
+    ((h_arm h = Some ArmItem /\ exists it, s_buf st = it :: s_buf st') \/
+     ((h_arm h = Some ArmClear \/ h_arm h = Some ArmStop) /\ s_buf st' = [])).
+Proof. exact consumed_only_by_processor. Qed.
+Print Assumptions C10_slots_are_consumed_only_by_the_processor.
+
+(* THE BARRIER.  A thread calls wait() in any reachable state st0 — any history, schedule, flavour,
+   buffer size — and its marker is queued.  Follow any continuation of the run (btrace), counting
+   down the slots that were in the buffer at that moment as the processor consumes them.  Whenever
+   the marker has been released, i.e. wait() can return Ok, the count is zero: every item queued
+   before the marker — in particular every insert and remove the same thread issued before calling
+   wait() — has been taken by the processor, or discarded by a drain for clear() / close(). *)
+Theorem C10_wait_is_a_barrier :
+  forall c mc t now st0 a st1 id st n,
+  reach c (cinit c mc t now) st0 ->
+  cstep c st0 (LOp a OWait) = StepOk st1 (mk_out PtWaitAfterSend [] RNone) -> client_of st1 a = KWaitAfterSend id ->
+  btrace c st1 (length (s_buf st0)) st n ->
+  mem_N id (s_done st) = true -> n = 0%nat.
+Proof. exact wait_is_a_barrier. Qed.
+Print Assumptions C10_wait_is_a_barrier.
+
+(* ... and the release happens while the processor is at its loop head, between two items: what it
+   took before the marker has been handled to the end (the per-item effects are C04's end-to-end
+   theorems). *)
+Theorem C10_marker_released_between_items :
+  forall c st l st' o id n,
+  ahead st id n -> cstep c st l = StepOk st' o -> mem_N id (s_done st') = true ->
+  s_pc st = PIdle /\ exists h, l = LProc h.
+Proof. exact marker_released_between_items. Qed.
+Print Assumptions C10_marker_released_between_items.
+
+(* non-vacuity: insert, then wait(); the count is 1 while the insert is still queued, the marker is
+   not released before the processor has taken the insert, and is released with count 0 *)
+Example C10_barrier_nonvacuous :
+  match tl_new 3 [1; 2; 3; 4] 29 7 with
+  | Some t =>
+      let c := {| c_ignore_internal := true; c_item_size := 56; c_buf_cap := 4; c_buffer_items := 0; c_metrics := true;
+                  c_validator := fun _ _ => true; c_coster := fun _ => 0%Z; c_async := false |} in
+      let item := {| h_arm := Some ArmItem; h_oracle := []; h_tick_key := None |} in
+      match crun c (cinit c 100 t 1000) [LOp 0 (OInsert 1 0 100 1 0 false); LClient 0] with
+      | Some (st0, _) =>
+          match cstep c st0 (LOp 0 OWait) with
+          | StepOk st1 o =>
+              (length (s_buf st0), o, client_of st1 0,
+               match brun c st1 1 [LClient 0] with Some (s, n) => Some (mem_N 0 (s_done s), n) | None => None end,
+               match brun c st1 1 [LClient 0; LProc item; LProc no_hint; LProc no_hint] with Some (s, n) => Some (mem_N 0 (s_done s), n) | None => None end,
+               match brun c st1 1 [LClient 0; LProc item; LProc no_hint; LProc no_hint; LProc item] with Some (s, n) => Some (mem_N 0 (s_done s), n) | None => None end)
+          | _ => (0%nat, mk_out PtBlocked [] RNone, KIdle, None, None, None)
+          end
+      | None => (0%nat, mk_out PtBlocked [] RNone, KIdle, None, None, None)
+      end
+  | None => (0%nat, mk_out PtBlocked [] RNone, KIdle, None, None, None)
+  end = (1%nat, mk_out PtWaitAfterSend [] RNone, KWaitAfterSend 0,
+         Some (false, 1%nat), Some (false, 0%nat), Some (true, 0%nat)).
+Proof. vm_compute. reflexivity. Qed.
